@@ -47,6 +47,9 @@ pub enum Op {
     Append { t: u8, r: Option<u8>, kind: u8 },
     /// the same operations on another global must not interfere
     OtherGlobalAppend,
+    /// attach from worker thread t (optionally inside runtime r) - a thread that may have a
+    /// thread-local test sink installed / a runtime with a test sink: neither counts as "attached"
+    AttachOn { t: u8, r: Option<u8>, sink: u8 },
 }
 
 #[derive(Clone, Debug, Serialize, Deserialize)]
@@ -67,6 +70,13 @@ enum Cmd {
         id: Id,
         reply: mpsc::Sender<Result<bool, ()>>,
     },
+    /// attach on this thread; the handle stays with the thread until DropAttach
+    Attach {
+        rt: Option<Arc<tokio::runtime::Runtime>>,
+        sink: BoxEntrySink,
+        reply: mpsc::Sender<bool>,
+    },
+    DropAttach(mpsc::Sender<bool>),
     Quit,
 }
 
@@ -107,6 +117,7 @@ impl_glob!(metrique_service_metrics::ServiceMetrics);
 
 fn worker<G: Glob>(rx: mpsc::Receiver<Cmd>) {
     let mut guard: Option<ThreadLocalTestSinkGuard> = None;
+    let mut attach_handle: Option<AttachHandle> = None;
     while let Ok(cmd) = rx.recv() {
         match cmd {
             Cmd::SetTl(s, reply) => {
@@ -145,9 +156,30 @@ fn worker<G: Glob>(rx: mpsc::Receiver<Cmd>) {
                 }));
                 let _ = reply.send(r.map_err(|_| ()));
             }
+            Cmd::Attach { rt, sink, reply } => {
+                let _enter = rt.as_ref().map(|r| r.enter());
+                match catch_unwind(AssertUnwindSafe(|| G::g_attach(sink))) {
+                    Ok(h) => {
+                        if attach_handle.is_none() {
+                            attach_handle = Some(h);
+                        } else {
+                            std::mem::forget(h);
+                        }
+                        let _ = reply.send(true);
+                    }
+                    Err(_) => {
+                        let _ = reply.send(false);
+                    }
+                }
+            }
+            Cmd::DropAttach(reply) => {
+                let had = attach_handle.take().is_some();
+                let _ = reply.send(had);
+            }
             Cmd::Quit => break,
         }
     }
+    drop(attach_handle);
     drop(guard);
 }
 
@@ -176,6 +208,7 @@ fn run_history<G: Glob + 'static>(case: &Case) -> CaseResult {
     // model
     let mut attached: Option<u8> = None;
     let mut attach_handle: Option<AttachHandle> = None;
+    let mut attach_owner: Option<usize> = None;
     let mut tl: [Option<u8>; NT] = [None; NT];
     let mut rt: [Option<u8>; NR] = [None; NR];
     let mut rt_guards: Vec<Option<TokioRuntimeTestSinkGuard>> = (0..NR).map(|_| None).collect();
@@ -210,6 +243,45 @@ fn run_history<G: Glob + 'static>(case: &Case) -> CaseResult {
                     if let Some(h) = attach_handle.take() {
                         drop(h);
                         attached = None;
+                    } else if let Some(t) = attach_owner.take() {
+                        let (rtx, rrx) = mpsc::channel();
+                        txs[t].send(Cmd::DropAttach(rtx)).unwrap();
+                        let _ = rrx.recv().unwrap();
+                        attached = None;
+                    }
+                }
+                Op::AttachOn { t, r, sink } => {
+                    let t = t as usize % NT;
+                    let r = r.map(|x| x as usize % NR);
+                    let (rtx, rrx) = mpsc::channel();
+                    txs[t]
+                        .send(Cmd::Attach {
+                            rt: r.map(|x| rts[x].clone()),
+                            sink: mk(sink),
+                            reply: rtx,
+                        })
+                        .unwrap();
+                    let ok = rrx.recv().unwrap();
+                    match (ok, attached) {
+                        (true, None) => {
+                            attach_owner = Some(t);
+                            attached = Some(sink);
+                            levels_used[2] = true;
+                            if tl[t].is_some() || r.map(|x| rt[x].is_some()).unwrap_or(false) {
+                                classes.push("attach-from-a-thread-with-a-test-sink");
+                            }
+                        }
+                        (false, Some(_)) => {
+                            panics += 1;
+                            classes.push("panic-attach-while-attached");
+                        }
+                        (true, Some(_)) => vfail!("global:double-attach-accepted", "op {i}: attach succeeded while a sink was already attached"),
+                        (false, None) => vfail!(
+                            "global:attach-panicked",
+                            "op {i}: attach from thread {t} (runtime {r:?}) panicked although nothing was attached (thread-local test sink there: {:?}, runtime test sink: {:?})",
+                            tl[t],
+                            r.and_then(|x| rt[x])
+                        ),
                     }
                 }
                 Op::SetTl { t, sink } => {
@@ -787,6 +859,7 @@ fn forget_children(ctx: &mut Ctx) {
 pub fn arb_op() -> impl Strategy<Value = Op> {
     prop_oneof![
         3 => (0u8..4).prop_map(Op::Attach),
+        2 => (0u8..3, prop::option::of(0u8..2), 0u8..4).prop_map(|(t, r, sink)| Op::AttachOn { t, r, sink }),
         2 => Just(Op::DropAttach),
         3 => (0u8..3, 10u8..14).prop_map(|(t, sink)| Op::SetTl { t, sink }),
         2 => (0u8..3).prop_map(|t| Op::DropTl { t }),
@@ -803,11 +876,11 @@ pub fn run(ctx: &mut Ctx) {
     ctx.explore(
         SubCfg::new(
             "c17-routing",
-            "histories (0-40 ops) over attach / drop attach handle / install+drop thread-local test sink on one of 3 worker threads / install+drop runtime test sink on one of 2 current-thread tokio runtimes / append (try_append, append, sink().append) from a chosen thread optionally inside a chosen runtime, incl. the panicking operations (attach while attached, second thread-local / runtime install, append with nothing attached) under catch_unwind; on a harness-declared global and on ServiceMetrics; a second global must not interfere. Oracle: reference state machine {attached, tl[t], rt[r]}: destination = thread-local else runtime else attached else handed back (try_append) / panic (append); after EVERY append the tagged collectors hold exactly the expected (destination, entry) list; panicking ops leave the model state unchanged and later ops still behave per model. Non-trivial = all three levels were installed at some time and >= 1 panic path was taken",
+            "histories (0-40 ops) over attach (from the controller or from a worker thread, optionally inside a runtime - a thread's or runtime's test sink does not make the global 'attached') / drop attach handle / install+drop thread-local test sink on one of 3 worker threads / install+drop runtime test sink on one of 2 current-thread tokio runtimes / append (try_append, append, sink().append) from a chosen thread optionally inside a chosen runtime, incl. the panicking operations (attach while attached, second thread-local / runtime install, append with nothing attached) under catch_unwind; on a harness-declared global and on ServiceMetrics; a second global must not interfere. Oracle: reference state machine {attached, tl[t], rt[r]}: destination = thread-local else runtime else attached else handed back (try_append) / panic (append); after EVERY append the tagged collectors hold exactly the expected (destination, entry) list; panicking ops leave the model state unchanged and later ops still behave per model. Non-trivial = all three levels were installed at some time and >= 1 panic path was taken",
             if q { 12_000 } else { 200_000 },
         )
         .shrink_iters(300)
-        .mandatory(&["all-three-levels", "panic-attach-while-attached", "panic-second-thread-local", "panic-second-runtime-sink", "panic-append-unattached", "handed-back", "service-metrics-global"]),
+        .mandatory(&["all-three-levels", "panic-attach-while-attached", "panic-second-thread-local", "panic-second-runtime-sink", "panic-append-unattached", "handed-back", "service-metrics-global", "attach-from-a-thread-with-a-test-sink"]),
         || (prop::collection::vec(arb_op(), 0..40), prop::bool::weighted(0.3)).prop_map(|(ops, service_metrics)| Case { ops, service_metrics }),
         check,
     );
